@@ -46,9 +46,9 @@ theorem C35_rule_bad_pseudo (c : Conn) (id : Nat) (es : Bool) (hg : c.goAway = n
   simp [cstepCore, headersEv, hg, h0, hodd, hnl, this, Conn.upd, sstep, hin]
 
 /-- DATA on a stream that is not open (idle, half-closed(remote), closed, or after trailers) ⇒ STREAM_CLOSED -/
-theorem C35_rule_data_not_open (c : Conn) (id n : Nat) (es : Bool) (hg : c.goAway = none) (h0 : id ≠ 0)
+theorem C35_rule_data_not_open (c : Conn) (id n pad : Nat) (es : Bool) (hg : c.goAway = none) (h0 : id ≠ 0)
     (h : (c.streams id).phase ≠ .opn ∨ (c.streams id).trailer = true) :
-    (cstepCore c (.D id n es)).2 = .rst 5 := by
+    (cstepCore c (.D id n es pad)).2 = .rst 5 := by
   have h0' : (id == 0) = false := by simpa using h0
   simp only [cstepCore, h0', Bool.false_eq_true, if_false, discardData, hg, Conn.upd, sstep]
   have : (!((c.streams id).live && (c.streams id).phase == .opn && !(c.streams id).trailer)) = true := by
@@ -80,10 +80,10 @@ theorem C35_rule_duplicate_trailers (c : Conn) (id : Nat) (es : Bool) (k : Kind)
   simp [cstepCore, headersEv, hg, h0, hodd, h, ht, SS.live, Conn.upd, sstep]
 
 /-- more DATA than the declared content-length ⇒ stream error PROTOCOL_ERROR -/
-theorem C35_rule_over_declared (c : Conn) (id n d : Nat) (es : Bool) (hg : c.goAway = none) (h0 : id ≠ 0)
+theorem C35_rule_over_declared (c : Conn) (id n d pad : Nat) (es : Bool) (hg : c.goAway = none) (h0 : id ≠ 0)
     (h : (c.streams id).phase = .opn) (ht : (c.streams id).trailer = false) (hb : (c.streams id).hasBody = true)
     (hd : (c.streams id).decl = some d) (hov : (c.streams id).got + n > d) :
-    (cstepCore c (.D id n es)).2 = .rst 1 := by
+    (cstepCore c (.D id n es pad)).2 = .rst 1 := by
   have h0' : (id == 0) = false := by simpa using h0
   simp [cstepCore, h0', discardData, hg, h, ht, hb, SS.live, Conn.upd, sstep, overDeclared, hd, hov]
 
@@ -106,7 +106,7 @@ theorem C35_rule_frame_sequence (c : Conn) (id : Nat) (hg : c.goAway = none) :
 /-- the inGoAway rules: once a GOAWAY is under way HEADERS are ignored (no stream is created, nothing is sent) and
     further connection errors send nothing; after an error GOAWAY every DATA frame is discarded -/
 theorem C35_rule_in_goaway (c : Conn) (code id n : Nat) (es : Bool) (k : Kind) (hg : c.goAway = some code) (h0 : id ≠ 0) :
-    cstepCore c (.H id es k) = (c, .ok) ∧ (code ≠ 0 → cstepCore c (.D id n es) = (c, .ok)) ∧
+    cstepCore c (.H id es k) = (c, .ok) ∧ (code ≠ 0 → cstepCore c (.D id n es 0) = (c, .ok)) ∧
     (cstepCore c .Q).2 = .ok := by
   have h0' : (id == 0) = false := by simpa using h0
   refine ⟨by simp [cstepCore, headersEv, hg, h0], ?_, by simp [cstepCore, hg]⟩
@@ -132,6 +132,17 @@ theorem C35_no_internal_partial (adv : Nat) (evs : List Ev) (hp : ∀ e ∈ evs,
     ∀ o ∈ (runEvs { adv := adv } evs []).2, o.isPanic = false :=
   runEvs_no_panic { adv := adv } evs [] hp (fun _ => sinv_default) (fun _ h => by cases h)
 
+/-- **C35_no_queued_frame_on_closed_stream**: in every reachable state of a schedule without handler panics, a
+    stream closed by completion (`errHandlerComplete`, no reset flag) has no frame left in the write scheduler —
+    closeStream forgets the stream's queue — and every queued response frame belongs to a handler that has ended.
+    This is the invariant that makes the "attempt to send a write … on a closed stream" panic of startFrameWrite
+    unreachable when the scheduler later takes frames (`drainStep_inv`); it is preserved by every step. -/
+theorem C35_no_queued_frame_on_closed_stream (c : Conn) (e : Ev) (hp : e.isP = false)
+    (h : ∀ id, SInv (c.streams id)) :
+    (∀ id, SInv ((cstep c e).1.streams id)) ∧
+    ∀ id, (((cstep c e).1.streams id).phase = .closedDone → ((cstep c e).1.streams id).q = []) :=
+  ⟨(cstep_inv c e hp h).1, fun id hc => ((cstep_inv c e hp h).1 id).qidle (Or.inl hc)⟩
+
 /-- the hypothesis cannot be dropped: a handler panics, its handlerPanicRST is in flight, the client's own
     RST_STREAM closes the stream, and `wroteFrame` then calls `closeStream` on the closed stream
     ("invariant; can't close stream in state Closed").  Replayed on the real code (corpus/C35/known.ops). -/
@@ -147,14 +158,20 @@ theorem C35_panic_sites_classified :
     BfeVerif.Generated.C35.panicSites.all classifySite = true := by decide
 
 /-- non-vacuity: a schedule with two streams, trailers, a reset racing with the handler's final frame -/
-example : (runEvs { adv := 3 } [.H 1 false .ok, .D 1 3 false, .H 1 true .tr, .H 3 true .ok, .F 1, .R 1, .W, .F 3, .W] []).2
+example : (runEvs { adv := 3 } [.H 1 false .ok, .D 1 3 false 0, .H 1 true .tr, .H 3 true .ok, .F 1, .R 1, .W, .F 3, .W] []).2
     = [.ok, .ok, .ok, .ok, .held, .ok, .ok, .held, .ok] := by decide
 
 example : (runEvs { adv := 1 } [.H 1 true .ok, .H 3 true .ok] []).2 = [.ok, .close] := by decide
 
+/-- response DATA blocked by a small stream window, a PADDED DATA+END_STREAM from the client (its refund
+    WINDOW_UPDATE queues behind the blocked DATA), then the window opens: the final DATA goes in flight, its
+    completion closes the stream and forgets the queued WINDOW_UPDATE; the next scheduler run finds nothing. -/
+example : (runEvs { adv := 3 } [.S false (some 5), .H 1 false .ok, .B 1 10, .D 1 0 true 4, .U 1 10, .W, .G 0 false] []).2
+    = [.ok, .ok, .blocked, .ok, .ok, .ok, .ok] := by decide
+
 /-- the larger alphabet: SETTINGS ACK, WINDOW_UPDATE, graceful shutdown (HEADERS ignored, DATA still accepted),
     PING, a framing error that ends the frame reader, and the handler finishing afterwards -/
-example : (runEvs { adv := 3 } [.S true none, .H 1 false .ok, .U 1 1000, .Q, .H 3 true .ok, .D 1 1 false,
+example : (runEvs { adv := 3 } [.S true none, .H 1 false .ok, .U 1 1000, .Q, .H 3 true .ok, .D 1 1 false 0,
     .G 0 false, .C 1, .R 1, .F 1] []).2
     = [.ok, .ok, .ok, .ga 0, .ok, .ok, .ok, .ok, .gone, .held] := by decide
 
